@@ -162,8 +162,8 @@ struct W1 {
             if (c.get_target_volume() < type->min_vol_) { res.fail("C04", "target_volume_floor", who.str() + ": target volume below the type's minimum volume"); return; }
             CellView v = view_of(c); Geo g = geometry(v);
             double D = std::max({std::fabs(g.centroid_area.x), std::fabs(g.centroid_area.y), std::fabs(g.centroid_area.z)}), Ld = (g.bmax - g.bmin).norm();
-            double relv = 1e-9 + 1e-15 * std::pow(1 + D / Ld, 3);
-            if (g.volume > 0 && tv > 0) {
+            double relv = (1e-9 + 1e-15 * std::pow(1 + D / Ld, 3)) * std::max(1.0, 0.01 * Ld * Ld * Ld / std::max(g.volume, 1e-300));   // rounding of a volume sum scales with the extent, not with the (possibly tiny) volume
+            if (g.volume > 1e-6 * Ld * Ld * Ld && tv > 0) {
                 double pr = -type->bulk_modulus_ * std::log(g.volume / tv); if (pr > type->max_pressure_) pr = type->max_pressure_;
                 double tol = type->bulk_modulus_ * relv * 4 + std::fabs(pr) * 1e-9;
                 if (std::fabs(c.get_pressure() - pr) > tol) { std::ostringstream d; d << who.str() << ": pressure " << c.get_pressure() << " but -K ln(V/Vt) capped = " << pr << " (V=" << g.volume << ", Vt=" << tv << ")"; res.fail("C04", "pressure", d.str()); return; }
@@ -262,6 +262,7 @@ struct W1 {
                     catch (mesh_integrity_exception&) { res.probes.hit("iteration_threw_mesh_integrity"); stop = true; break; }
                     catch (std::exception& e) { res.probes.hit("iteration_threw_other"); res.fail("C10", "iteration.exception", std::string("run_iteration threw: ") + e.what()); stop = true; break; }
                     iters_done++; res.sim_time += T.params.time_step_;
+                    { bool blown = false; for (auto& c : S->cells()) if (c->get_nb_of_nodes() > 5000) blown = true; if (blown) { res.probes.hit("blown_up_stop"); stop = true; break; } }
                     iter_hash.push_back(pop_hash());
                     if (monitors) {
                         after_iteration(before_ids);
@@ -280,7 +281,7 @@ struct W1 {
 };
 
 RunResult run_w1(const Plan& pl) {
-    RunResult res; sim::RunConfig cfg = config_from(pl); cfg.step_budget = 3000000000ull;
+    RunResult res; sim::RunConfig cfg = config_from(pl); cfg.step_budget = 600000000ull;
     sim::clear_faults(); sim::begin_run(cfg);
     std::vector<uint64_t> hashA; uint64_t nA = 0;
     {
@@ -335,6 +336,7 @@ Plan gen_w1(uint64_t seed, const std::string& tier, const std::string& focus) {
     const double R = 5e-6; double lmin = R * r.uni(0.18, 0.3); pl.p["lmin"] = lmin;
     double cutoff = lmin * r.uni(0.3, 0.7); pl.p["cut_adh"] = cutoff; pl.p["cut_rep"] = r.coin(0.7) ? cutoff : cutoff * r.uni(0.5, 1.5);
     pl.p["dt"] = 1e-7; pl.p["damping"] = 5e-10; pl.p["swap"] = r.coin(0.4);
+    pl.p["min_vol"] = 1e-17; pl.p["min_vol_other"] = 1e-17;      // admissible parameter sets have a positive minimum volume (a zero target volume means infinite pressure)
     int n = r.range(1, thorough ? 6 : 4); int layout = (int)r.below(3);
     if (focus == "C15") { layout = 0; n = r.range(2, 6); pl.p["diff"] = 1; pl.p["adhesion"] = 0; }
     if (focus == "C03") { layout = r.coin(0.7) ? 1 : 2; n = r.range(2, 4); }
@@ -353,7 +355,7 @@ Plan gen_w1(uint64_t seed, const std::string& tier, const std::string& focus) {
         case 1: pl.p["growth"] = r.uni(1e-11, 5e-11); pl.p["div_vol"] = V0 * r.uni(0.5, 1.05); break;     // divisions soon
         case 2: pl.p["growth"] = -r.uni(2e-11, 8e-11); pl.p["min_vol"] = V0 * r.uni(0.5, 0.95); break;     // shrink -> removal
         case 3: pl.p["growth"] = r.uni(1e-11, 4e-11); pl.p["growth_sigma"] = pl.p["growth"] * r.uni(0.1, 0.5); pl.p["div_vol"] = V0 * r.uni(0.6, 1.05); pl.p["div_sigma"] = pl.p["div_vol"] * r.uni(0.01, 0.1); break;
-        case 4: pl.p["growth"] = r.uni(1e-11, 4e-11); pl.p["max_pressure"] = r.uni(5, 500); pl.p["min_vol"] = V0 * 0.3; break;
+        case 4: pl.p["growth"] = r.coin(0.5) ? r.uni(1e-11, 4e-11) : -r.uni(1e-12, 2e-11); pl.p["max_pressure"] = r.uni(5, 500); pl.p["min_vol"] = V0 * 0.3; break;
     }
     if (r.coin(0.3)) pl.p["init_pressure"] = r.uni(10, 300);
     if (r.coin(0.2)) pl.p["area_elasticity"] = 1e-15;
